@@ -188,7 +188,7 @@ func readLangSysTable(p *parser.Parser, pos int64) (*Features, error) {
 		}
 	}
 
-	featureIndices := make([]FeatureIndex, featureIndexCount)
+	featureIndices := make([]FeatureIndex, 0, featureIndexCount)
 	for i := 0; i < int(featureIndexCount); i++ {
 		idx, err := p.ReadUint16()
 		if err != nil {
@@ -196,7 +196,7 @@ func readLangSysTable(p *parser.Parser, pos int64) (*Features, error) {
 		} else if idx == 0xFFFF {
 			continue
 		}
-		featureIndices[i] = FeatureIndex(idx)
+		featureIndices = append(featureIndices, FeatureIndex(idx))
 	}
 
 	return &Features{
